@@ -90,27 +90,32 @@ def sl_class_selfcheck(ctx, n):
     filtered: inside and outside the class) and the corpus: (a) a case outside the Lean class never
     crashes in the model — the statement `sl_iter_memory_safe`, sampled; (b) the python class predicate
     `mapgen.k_c18_sl` (array ownership replayed on the dictionary; the generator's filter) only accepts
-    cases of the Lean class.  A disagreement is a defect of the machinery."""
+    cases of the Lean class; (c) every case of the Lean class is in K_parked (some rm removes an entry an
+    iterator is parked on), the class outside which sl_iter_memory_safe_partial and
+    sl_refines_dict_iters_partial are proved.  A disagreement is a defect of the machinery."""
     if "map" not in ctx.models or "slclass" not in ctx.models:
         return
     cases = [("k-%s" % cid, ops) for cid, ops in vlib.corpus_cases("C18") if mapgen.impl_of(ops) == "sl"]
     cases += [("k%d" % i, mapgen.gen_c18(ctx.rng, "sl")) for i in range(n)]
     ml = vlib.run_batched(ctx, ctx.models["map"], cases, batch=50)
     kl = vlib.run_batched(ctx, ctx.models["slclass"], [(cid, ops + ["slk"]) for cid, ops in cases], batch=50)
-    nlean = npy = ncrash = 0
+    nlean = npy = ncrash = nparked = 0
     for cid, ops in cases:
         line = [l for l in kl[str(cid)][0] if l.startswith("slk ")]
-        if not line or len(line[-1].split()) != 3 or "-" in line[-1].split()[1:]:
+        if not line or len(line[-1].split()) != 4 or "-" in line[-1].split()[1:]:
             ctx.broken.append("qb_slclass gave no class line for case %s" % cid)
             break
-        shared, crashed = (w == "1" for w in line[-1].split()[1:])
+        shared, crashed, parked = (w == "1" for w in line[-1].split()[1:])
         py = mapgen.k_c18_sl(ops, ml[str(cid)][0])
         uaf = any(l.startswith("SAN:") or l == "MODEL-DIVERGE" for l in ml[str(cid)][0])
         nlean += shared
         npy += bool(py)
         ncrash += crashed
+        nparked += parked
         bad = None
-        if (crashed or uaf) and not shared:
+        if shared and not parked:
+            bad = "a case of the Lean class K_C18_sl lies outside K_parked (the class of the proved theorems)"
+        elif (crashed or uaf) and not shared:
             bad = "the model crashes on a case outside the Lean class K_C18_sl"
         elif py and not shared:
             bad = "python k_c18_sl accepts a case that the Lean class K_C18_sl rejects"
@@ -123,6 +128,7 @@ def sl_class_selfcheck(ctx, n):
     ctx.count("slclass-in-lean-class", nlean)
     ctx.count("slclass-in-python-class", npy)
     ctx.count("slclass-model-crashes", ncrash)
+    ctx.count("slclass-in-K_parked", nparked)
 
 
 def findings_for(ctx):
